@@ -63,6 +63,38 @@ fn keygen_events<V: Fv>(proc_id: u64, seed: u64, bases: usize, flips: usize, con
             evs.push(keygen_event::<V>(proc_id, 0, evs.len(), *base, "repeat-after-signing"));
         }
     }
+    // byte sweeps: every value of seed byte 0 (and extreme values of bytes 15, 31) on an all-zero and an all-ones base: the
+    // seed is consumed byte-wise, so wrap-around / saturation / truncation mistakes show at 0x00, 0x7f, 0x80, 0xff
+    if flips > 0 {
+        let mut sweep: Vec<[u8; 32]> = vec![];
+        for basev in [0u8, 255] {
+            for v in 0..=255u8 {
+                if flips < 256 && !(v < 4 || v > 251 || (126..=129).contains(&v)) {
+                    continue;
+                }
+                let mut s = [basev; 32];
+                s[0] = v;
+                sweep.push(s);
+            }
+            for pos in [15usize, 31] {
+                for v in [0u8, 1, 127, 128, 254, 255] {
+                    let mut s = [basev; 32];
+                    s[pos] = v;
+                    sweep.push(s);
+                }
+            }
+        }
+        sweep.sort();
+        sweep.dedup();
+        let chunks: Vec<Vec<[u8; 32]>> = sweep.chunks((sweep.len() + 11) / 12).map(|c| c.to_vec()).collect();
+        let mut hs = vec![];
+        for (t, ch) in chunks.into_iter().enumerate() {
+            hs.push(std::thread::spawn(move || ch.iter().enumerate().map(|(i, s)| keygen_event::<V>(proc_id, 20 + t, i, *s, "byte-sweep")).collect::<Vec<_>>()));
+        }
+        for h in hs {
+            evs.extend(h.join().unwrap());
+        }
+    }
     // bit flips, computed on a pool of threads; concurrently other threads sign (shared key)
     let base = base_seeds[0];
     let (bsk, _) = V::keygen(base);
